@@ -1334,17 +1334,33 @@ func doReplay(path string) int {
 		}
 		log = append(log, i)
 	}
-	o := runLog(log)
-	if len(o.viols) == 0 {
-		fmt.Println("replay passed")
-		return 0
-	}
-	for _, v := range o.viols {
-		fmt.Printf("VIOLATION property=C13 replay=%s\n  %s: %s\n", path, v.Key, v.Message)
-	}
 	scratch := ev.Scratch("c13r")
 	defer os.RemoveAll(scratch)
-	r := e2e(scratch, log)
-	fmt.Printf("  end-to-end (real public Write handler, real leader RF=1, real follower): %s\n", r)
-	return 1
+	for _, gi := range log {
+		if ok, detail := acceptedIntoLog(scratch, gi); !ok {
+			fmt.Printf("replay passed: %s is refused by the public RPC handlers before logging (%s), so the log is outside the property\n", gens[gi].name, detail)
+			return 0
+		}
+	}
+	o := runLog(log)
+	rc := 0
+	for _, v := range o.viols {
+		fmt.Printf("VIOLATION property=C13 replay=%s\n  %s: %s\n", path, v.Key, v.Message)
+		rc = 1
+	}
+	for _, rj := range o.rejs {
+		fmt.Printf("  typed rejection without trace (%s) at the last request of %v\n", rj.key, names(rj.log))
+	}
+	if rc == 1 || len(o.rejs) > 0 {
+		r := e2e(scratch, log)
+		fmt.Printf("  end-to-end (real public Write handler, real leader RF=1, real follower): %s\n", r)
+		if rc == 0 && (r.LeaderBlocked || r.RestartBlocked || r.FollowerBlocked) {
+			fmt.Printf("VIOLATION property=C13 replay=%s\n  %s: an end-to-end route does not cope with the rejected entry\n", path, o.rejs[0].key)
+			rc = 1
+		}
+	}
+	if rc == 0 {
+		fmt.Println("replay passed")
+	}
+	return rc
 }
